@@ -1,12 +1,19 @@
 F = 'xenium/kirsch_bounded_kfifo_queue.hpp'
 CLS = r'kirsch_bounded_kfifo_queue<T, Policies\.\.\.>::'
 # receivers whose .get()/.mark() are marked_idx methods; every other receiver is a marked_value (marked_ptr<T,16>)
-MI = ['tail_old', 'head_old', 'tail_current', 'head_current']
+# They are found by their declared type in the header (parameters and locals of type marked_idx), not by a fixed list of names.
+import os as _os, re as _re
+try:
+    _src = open(_os.path.join(_os.environ.get('XV_REPO', '/repo'), F), errors='replace').read()
+    MI = sorted(set(_re.findall(r'\bmarked_idx\s*&?\s*([A-Za-z_]\w*)\s*[,;)=({]', _src)) | {'tail_old', 'head_old', 'tail_current', 'head_current'})
+except OSError:
+    MI = ['tail_old', 'head_old', 'tail_current', 'head_current']
 GET = dict({r: 'MI_get' for r in MI}, **{'*': 'MV_get'})
 MARK = dict({r: 'MI_mark' for r in MI}, **{'*': 'MV_mark'})
 COMMON = dict(members=['_queue_size', '_k', '_head', '_tail', '_queue'],
               methods={'get': GET, 'mark': MARK},
               subst=[(r'\bmarked_idx (\w+)\(([^;]*)\);', r'marked_idx \1 = MI_make(\2);', 'mi_ctor'),
+                     (r'\bmarked_idx\(', 'MI_make(', 'mi_temp'),      # marked_idx(a, b) as an expression (temporary)
                      (r'\b(const )?marked_value (\w+)\(([^;]*)\);', r'\1marked_value \2 = MV_make(\3);', 'mv_ctor'),
                      (r'\btraits::', 'TR_', 'traits'), (r'\butils::random\(\)', 'xv_random()', 'random'),
                      (r'find_index<true>\((.*?), idx, old_value\)', r'CALL_find_index_E(self, \1, &idx, &old_value)', 'find_index_call'),
